@@ -27,7 +27,8 @@ META = {
              'rder oracle, symbolic links, directory names whose given ord'
              'er is not sorted, default options requested by omitting the '
              'argument.'
-             " Round 12: slices_to_raw_chunks with explicit lists, two conversions from the same list objects."),
+             " Round 12: slices_to_raw_chunks with explicit lists, two conversions from the same list objects."
+             " Round 18: one directory named for two channels."),
     "exhaustive_parts": ["all 48 orientation codes (each with its own "
                          "Hypothesis run)"],
     "trusted_base": ["vlib/refs/orient_ref.py (from the letters only)",
@@ -153,7 +154,15 @@ def check_case(ctx, case):
             # lexicographic order (channels follow the order given)
             dnames = ["red", "green", "blue"] if case["seed"] % 2 else \
                 ["ch2", "ch10", "ch1"]
+            # the same directory may be named for two channels (an image
+            # shown in two colours): that channel repeats the first one
+            repeat_first = nch >= 2 and case["seed"] % 5 == 0
+            if repeat_first:
+                stack[nch - 1] = stack[0]
             for c in range(nch):
+                if repeat_first and c == nch - 1:
+                    dirs.append(dirs[0])
+                    break
                 p = os.path.join(d, dnames[c])
                 os.makedirs(p)
                 dirs.append(p)
